@@ -394,6 +394,25 @@ func freshHash(c *Ctx, r *Report, rule string) {
 					continue
 				}
 				bad = append(bad, fmt.Sprintf("%s returns state read from %s", c.pos(ret.Pos()), describeValue(t.X)))
+			case *ssa.Alloc:
+				// &T{...} / new(T) built here (a state held by value behind a pointer): what is stored into it must be
+				// this call's own as well
+				for _, ref := range *t.Referrers() {
+					fa, ok := ref.(*ssa.FieldAddr)
+					if !ok {
+						continue
+					}
+					for _, r2 := range *fa.Referrers() {
+						if st, ok := r2.(*ssa.Store); ok && st.Addr == fa {
+							_, fresh := st.Val.(*ssa.Alloc)
+							_, isCall := st.Val.(*ssa.Call)
+							_, isK := st.Val.(*ssa.Const)
+							if !fresh && !isCall && !isK {
+								bad = append(bad, fmt.Sprintf("%s returns a value holding %s, which is not allocated by this call", c.pos(ret.Pos()), describeValue(st.Val)))
+							}
+						}
+					}
+				}
 			default:
 				bad = append(bad, fmt.Sprintf("%s returns %s, which is not allocated by this call", c.pos(ret.Pos()), describeValue(l)))
 			}
